@@ -386,7 +386,9 @@ where
             }
             if is_terminal {
                 for (i, property) in properties.iter().enumerate() {
-                    if ebits.contains(i) {
+                    // Once a discovery exists the bits are no longer maintained along the path (see
+                    // above), so they say nothing about this path: keep the existing discovery.
+                    if ebits.contains(i) && !discoveries.contains_key(property.name) {
                         // Races other threads, but that's fine.
                         discoveries.insert(property.name, state_fp);
                     }
